@@ -421,7 +421,7 @@ fn dec_after_error_case(rng: &mut Rng, l: Limits, thorough: bool, out: &mut Vec<
 
 pub fn enc_case(rng: &mut Rng, _idx: u64, thorough: bool) -> Vec<String> {
     let mut ops = Vec::new();
-    if rng.below(1000) < (if thorough { 20 } else { 4 }) {
+    if rng.below(1000) < (if thorough { 6 } else { 4 }) {
         return enc_boundary_random(rng, thorough);
     }
     if rng.chance(1, 6) {
@@ -633,8 +633,11 @@ pub fn enc_boundary_cases(thorough: bool) -> Vec<Vec<String>> {
 fn enc_boundary_random(rng: &mut Rng, thorough: bool) -> Vec<String> {
     let mut ops = Vec::new();
     let bnd = *rng.pick(&BOUNDARIES);
-    let classes: &[usize] = if thorough {
-        &[1, 2, 64, 256, 4096, 64008, 65535, 65536, 65537, 131072, 262144, 1 << 20]
+    // (the list model costs about 2 us per byte on MiB-sized pieces: the big classes are rare)
+    let classes: &[usize] = if thorough && rng.chance(1, 12) {
+        &[262144, 1 << 20]
+    } else if thorough {
+        &[1, 2, 64, 256, 4096, 64008, 65535, 65536, 65537, 131072]
     } else {
         &[1, 2, 64, 256, 4096, 64008, 65535, 65536, 65537, 131072]
     };
